@@ -71,7 +71,7 @@ type Death struct {
 }
 
 // WatchdogSeconds is the wall-clock limit after which a silent worker is killed.
-const WatchdogSeconds = 40
+const WatchdogSeconds = 120
 
 // Call runs one decode in the worker. If the worker dies or hangs, the returned Death is
 // non-nil and the worker must be replaced.
@@ -112,7 +112,7 @@ func (w *Worker) Call(entry string, data []byte, info *dec.Info) (*dec.Response,
 		}
 		return &resp, nil
 	case <-time.After(WatchdogSeconds * time.Second):
-		// the worker reports a hang itself after 20 s together with the decode thread's user
+		// the worker reports a hang itself after 75 s together with the decode thread's user
 		// CPU time; getting here means the whole process was starved or stopped, which
 		// carries no information about the decoder
 		d := w.death("timeout", fmt.Sprintf("no answer within %d s", WatchdogSeconds))
